@@ -168,42 +168,65 @@ pub fn imm_u8_for(v: i64) -> Operand {
 
 // ------------------------------------------------------------------------------------------------
 
-struct Cur<'a> {
-    code: &'a [u8],
-    pos: usize,
-    ok: bool,
+/// Cursor over the first 16 bytes of the code (an x86 instruction is at most 15 bytes long), held in
+/// a shift register: reading a byte is `w as u8; w >>= 8` — no indexing with a computed position,
+/// which keeps the decoder cheap for the bit-level verifier. Bytes beyond the slice read as 0 and
+/// make the decode fail at the end (`n > len`).
+struct Cur {
+    w: u128,
+    n: u8,   // bytes consumed
+    len: u8, // bytes available (<= 16)
 }
 
-impl<'a> Cur<'a> {
+fn load16(code: &[u8]) -> Cur {
+    let l = code.len();
+    let mut w: u128 = 0;
+    if l > 0 { w |= code[0] as u128; }
+    if l > 1 { w |= (code[1] as u128) << 8; }
+    if l > 2 { w |= (code[2] as u128) << 16; }
+    if l > 3 { w |= (code[3] as u128) << 24; }
+    if l > 4 { w |= (code[4] as u128) << 32; }
+    if l > 5 { w |= (code[5] as u128) << 40; }
+    if l > 6 { w |= (code[6] as u128) << 48; }
+    if l > 7 { w |= (code[7] as u128) << 56; }
+    if l > 8 { w |= (code[8] as u128) << 64; }
+    if l > 9 { w |= (code[9] as u128) << 72; }
+    if l > 10 { w |= (code[10] as u128) << 80; }
+    if l > 11 { w |= (code[11] as u128) << 88; }
+    if l > 12 { w |= (code[12] as u128) << 96; }
+    if l > 13 { w |= (code[13] as u128) << 104; }
+    if l > 14 { w |= (code[14] as u128) << 112; }
+    if l > 15 { w |= (code[15] as u128) << 120; }
+    Cur { w, n: 0, len: if l > 16 { 16 } else { l as u8 } }
+}
+
+impl Cur {
     fn u8(&mut self) -> u8 {
-        if self.pos < self.code.len() {
-            let b = self.code[self.pos];
-            self.pos += 1;
-            b
-        } else {
-            self.ok = false;
-            0
-        }
+        let b = self.w as u8;
+        self.w >>= 8;
+        self.n = self.n.wrapping_add(1);
+        b
     }
     fn i8(&mut self) -> i64 {
         self.u8() as i8 as i64
     }
     fn i16(&mut self) -> i64 {
-        let a = self.u8();
-        let b = self.u8();
-        i16::from_le_bytes([a, b]) as i64
+        let v = self.w as u16 as i16 as i64;
+        self.w >>= 16;
+        self.n = self.n.wrapping_add(2);
+        v
     }
     fn i32(&mut self) -> i32 {
-        let a = self.u8();
-        let b = self.u8();
-        let c = self.u8();
-        let d = self.u8();
-        i32::from_le_bytes([a, b, c, d])
+        let v = self.w as u32 as i32;
+        self.w >>= 32;
+        self.n = self.n.wrapping_add(4);
+        v
     }
     fn i64(&mut self) -> i64 {
-        let lo = self.i32() as u32 as u64;
-        let hi = self.i32() as u32 as u64;
-        (lo | (hi << 32)) as i64
+        let v = self.w as u64 as i64;
+        self.w >>= 64;
+        self.n = self.n.wrapping_add(8);
+        v
     }
     /// immediate of the "imm16/32" column: imm16 for 16-bit, imm32 for 32-bit, imm32 sign-extended for 64-bit
     fn imm_z(&mut self, osz: u8) -> i64 {
@@ -342,12 +365,12 @@ const UNKNOWN: Insn = Insn::new(Mn::Unknown, 0);
 
 /// Decode ONE instruction at the start of `code`: the instruction and the number of bytes consumed.
 pub fn decode(code: &[u8]) -> Option<(Insn, usize)> {
-    let mut c = Cur { code, pos: 0, ok: true };
+    let mut c = load16(code);
     let i = decode_insn(&mut c);
-    if !c.ok || i.mn == Mn::Unknown {
+    if c.n > c.len || i.mn == Mn::Unknown {
         return None;
     }
-    Some((i, c.pos))
+    Some((i, c.n as usize))
 }
 
 fn decode_insn(c: &mut Cur) -> Insn {
